@@ -44,6 +44,6 @@ P = {
                     'proposer is a bonded validator; ante handler not run on either route (no fee, no sequence increment)',
                     'Staking/StakeModel.v does not model the 315-bit LegacyDec overflow panic (compared on amounts up to 2^256-1)'],
     'level_text': 'Coq theorem: for every method, argument and state the Cosmos-side effect and success/failure of an owner call equal the native message (before the final StateDB commit); refutation witness K6 for the whole-transaction statement. Every run executes, on forks of the same state, the precompile transaction and the native message through the real message router and diffs balances, delegations, unbondings, rewards, withdraw addresses, grants; the model is compared with the implementation on the same cases. Staking share arithmetic (Staking/StakeModel.v: validator tokens / shares / status, SharesFromTokens / TokensFromShares with LegacyDec truncation, first delegation to an empty validator, last share takes all tokens, max-entries rule, operator jailing, removal of an unbonded validator): theorems that the owner\'s precompile route (decoding, identity rule, message, Delegate event computed after the message, mirror + final commit) equals the native route in success and resulting numbers for all states and amounts, delegation to an emptied validator succeeds with shares = tokens, round-trip bounds; driver stakestates compares both routes on unusual states by a full store diff and the model\'s numbers with both routes',
-    'level_note': 'partial: interpreter and SDK keepers are modelled not verified; redelegate / cancelUnbondingDelegation / distribution methods in unusual states are covered by the differential store comparison only (no model of their arithmetic); the read-only methods (staking delegation / unbondingDelegation / validator, bank balances / totalSupply / supplyOf) are compared with keeper state by the evmquery driver (no model: they are projections); ICS-20: transfer of the bond denomination only; ICS-20 is not exercised',
+    'level_note': 'partial: interpreter and SDK keepers are modelled not verified; redelegate / cancelUnbondingDelegation / distribution methods in unusual states are covered by the differential store comparison only (no model of their arithmetic); the read-only methods (staking delegation / unbondingDelegation / validator, bank balances / totalSupply / supplyOf) are compared with keeper state by the evmquery driver (no model: they are projections); ICS-20: transfer of the bond denomination only',
     'technique': 'Coq proof over a StateDB/precompile model + differential correspondence on generated EVM call trees',
 }
